@@ -223,7 +223,7 @@ def AtLevels (t : Tbl) (x : Nat) (u : Nat) : Prop :=
 theorem popLevels_spec (m : Mgr) (hI : Inv m) (x : Nat) (ox oy : List Nat)
     (hox : LevelOrder m.tbl x ox) (hoy : LevelOrder m.tbl (x + 1) oy) :
     ∃ m1 m2, popLevel x ox m = (.ok (ox.map (trip m.tbl)), m1) ∧
-      popLevel (x + 1) oy m1 = (.ok (oy.map (trip m.tbl)), m2) ∧ m2.tbl = m.tbl ∧
+      popLevel (x + 1) oy m1 = (.ok (oy.map (trip m.tbl)), m2) ∧ m2.tbl = m.tbl ∧ m2.ref = m.ref ∧
       Mid m m2 x (AtLevels m.tbl x) := by
   have hp0 : ∀ n u, m.pred[n.key]? = some u ↔ (m.tbl.node? u = some n ∧ ¬ (fun _ => False) u) := by
     intro n u; rw [hI.pred]; simp
@@ -238,7 +238,7 @@ theorem popLevels_spec (m : Mgr) (hI : Inv m) (x : Nat) (ox oy : List Nat)
       · exact h
       · obtain ⟨n', hn', hl'⟩ := (hox.mem u).mp h
         rw [hn] at hn'; cases hn'; omega)
-  refine ⟨_, _, hrun1, hrun2, rfl, ?_⟩
+  refine ⟨_, _, hrun1, hrun2, rfl, rfl, ?_⟩
   · have hW := hI.wf.toWF
     refine ⟨⟨rfl, fun u n hn _ _ => hn, ?_, ?_, ?_, fun u n hn _ => hn, ?_⟩, fun u hu => hu, ?_,
       hI.freeGe, hI.free, hI.refOne, hI.refDom, ⟨rfl, rfl, rfl, rfl, rfl, rfl⟩⟩
